@@ -21,6 +21,9 @@ def sanitizer(S):
                  svg_attr_val_allows_ref=frozenset(), svg_allow_local_href=S.anyset("svg_allow_local_href", pair_keys=True))
 
 
+ATTR_NAMESPACES = ("http://www.w3.org/1999/xlink", "http://www.w3.org/XML/1998/namespace", "http://www.w3.org/2000/xmlns/")
+
+
 def san_token(S, L=None, tag_only=False):
     z3 = S.z3
     t = S.str_in("token.type", ("StartTag", "EndTag", "EmptyTag") if tag_only else TYPES)
@@ -36,7 +39,9 @@ def san_token(S, L=None, tag_only=False):
         d.entries["data"] = [S.str("token.text"), z3.Or(t.z == z3.StringVal("Characters"), t.z == z3.StringVal("SpaceCharacters"),
                                                           t.z == z3.StringVal("Comment"))]
     else:
-        pairs = [((S.one_of(None, lambda: S.str("ns%d" % j)), S.str("local%d" % j)), S.str("value%d" % j)) for j in range(k)]
+        # attribute namespaces of parsed input are the three of the standard's "adjust foreign attributes" table
+        # (token invariant: html5parser.adjustForeignAttributes is the only producer of namespaced attributes)
+        pairs = [((S.one_of(None, lambda: S.str_in("ns%d" % j, ATTR_NAMESPACES)), S.str("local%d" % j)), S.str("value%d" % j)) for j in range(k)]
         S.assume(z3.Or(t.z == z3.StringVal("StartTag"), t.z == z3.StringVal("EmptyTag")))
         d.entries["data"] = [S.symdict(pairs), True]
     return d
